@@ -20,6 +20,8 @@ def main():
     r = Run("C04", "quick", 0)
     r._known = []
     c04.check_tables(r, rows, ex, jnp, "f32")
+    if os.environ.get("VERIF_C04_MASKS_DUMP"):
+        c04.check_masks_big(r, os.environ["VERIF_C04_MASKS_DUMP"], ex, "f32")
     c04.check_grids(r, ex, "f32", "quick")
     c04.check_unit_ifft(r, {k: v for k, v in rows.items() if k[1] <= 16}, ex, jnp, "f32", 3e-5)
     c04.check_roundtrip_random(r, ex, jnp, np.random.default_rng(0), "f32", 3e-5)
